@@ -333,38 +333,163 @@ Proof.
     assert (block_matches pid tag bj = true) by (apply block_matches_iff; repeat split; congruence). congruence.
 Qed.
 
-Lemma invalidate_set_ok ns ways bs sid bsz addrs pid s :
-  SetOk ns ways bs sid s -> SetOk ns ways bs sid (invalidate_set bsz addrs pid s).
+Lemma invalidate_set_ok ns ways bs sid k bsz addrs pid s :
+  SetOk ns ways bs sid s -> SetOk ns ways bs sid (invalidate_set k bsz addrs pid s).
 Proof.
   intros [HL [HLru [HB HN]]]. unfold invalidate_set, SetOk. cbn [s_blocks s_lru].
   split; [rewrite map_length; exact HL|]. split; [exact HLru|]. split.
   - intros x Hx. apply in_map_iff in Hx. destruct Hx as [b [<- Hb]]. destruct (HB b Hb) as [H1 H2].
-    destruct (inv_match bsz addrs pid b); [|split; auto]. split; [exact H1|]. cbn. discriminate.
+    destruct (inv_match bsz addrs pid b && negb (k && b_locked b)); [|split; auto]. split; [exact H1|]. cbn. discriminate.
   - intros i j bi bj Hij Hi Hj Vi Vj. rewrite nth_error_map in Hi, Hj.
     destruct (nth_error (s_blocks s) i) as [xi|] eqn:Ei; [|discriminate].
     destruct (nth_error (s_blocks s) j) as [xj|] eqn:Ej; [|discriminate].
     injection Hi as <-. injection Hj as <-.
-    destruct (inv_match bsz addrs pid xi); [cbn in Vi; discriminate|].
-    destruct (inv_match bsz addrs pid xj); [cbn in Vj; discriminate|].
+    destruct (inv_match bsz addrs pid xi && negb (k && b_locked xi)); [cbn in Vi; discriminate|].
+    destruct (inv_match bsz addrs pid xj && negb (k && b_locked xj)); [cbn in Vj; discriminate|].
     apply (HN i j); auto.
 Qed.
 
 Lemma zth_map {A B} (f : A -> B) l i : zth (map f l) i = option_map f (zth l i).
 Proof. unfold zth. destruct (i <? 0); [reflexivity|]. apply nth_error_map. Qed.
 
-(** every guarded operation preserves well-formedness *)
+(** * the "locked blocks are valid" invariant of the write-back cache *)
+
+Definition LV (d : dir) : Prop :=
+  forall sid w b, get_block d sid w = Some b -> b_locked b = true -> b_valid b = true.
+
+Lemma gb_upd_same d s w f b :
+  get_block d s w = Some b -> get_block (upd_block d s w f) s w = Some (f b).
+Proof.
+  unfold get_block, upd_block. destruct (zth d s) as [st|] eqn:Es; [|discriminate]. intro Hb. rewrite Hb.
+  rewrite (zth_zupd_same _ _ _ _ Es). cbn [s_blocks]. apply (zth_zupd_same _ _ _ _ Hb).
+Qed.
+
+Lemma gb_upd_other d s w f s' w' :
+  (s, w) <> (s', w') -> get_block (upd_block d s w f) s' w' = get_block d s' w'.
+Proof.
+  intro Hne. unfold get_block, upd_block. destruct (zth d s) as [st|] eqn:Es; [|reflexivity].
+  destruct (zth (s_blocks st) w) as [b|] eqn:Eb; [|reflexivity].
+  destruct (Z.eq_dec s s') as [<-|Hs].
+  - rewrite (zth_zupd_same _ _ _ _ Es). rewrite Es. cbn [s_blocks].
+    apply zth_zupd_other. intro E. apply Hne. congruence.
+  - rewrite zth_zupd_other by exact Hs. reflexivity.
+Qed.
+
+Lemma upd_block_none d s w f : get_block d s w = None -> upd_block d s w f = d.
+Proof.
+  unfold get_block, upd_block. destruct (zth d s) as [st|]; [|reflexivity]. intros ->. reflexivity.
+Qed.
+
+Lemma lv_upd_block d sid w f :
+  LV d -> (forall b, get_block d sid w = Some b -> b_locked (f b) = true -> b_valid (f b) = true) ->
+  LV (upd_block d sid w f).
+Proof.
+  intros Hlv Hf s' w' b' Hb' Hl. destruct (get_block d sid w) as [b|] eqn:Eb.
+  - destruct (Z.eq_dec sid s') as [<-|Hs]; [destruct (Z.eq_dec w w') as [<-|Hw]|].
+    + rewrite (gb_upd_same _ _ _ _ _ Eb) in Hb'. injection Hb' as <-. auto.
+    + rewrite gb_upd_other in Hb' by congruence. eauto.
+    + rewrite gb_upd_other in Hb' by congruence. eauto.
+  - rewrite upd_block_none in Hb' by exact Eb. eauto.
+Qed.
+
+Lemma gb_visit d sid w d' s' w' : visit d sid w = Some d' -> get_block d' s' w' = get_block d s' w'.
+Proof.
+  unfold visit. destruct (zth d sid) as [s|] eqn:Es; [|discriminate]. intro H. injection H as <-.
+  unfold get_block. destruct (Z.eq_dec sid s') as [<-|Hne].
+  - rewrite (zth_zupd_same _ _ _ _ Es), Es. reflexivity.
+  - rewrite zth_zupd_other by exact Hne. reflexivity.
+Qed.
+
+Lemma lv_visit d sid w d' : LV d -> visit d sid w = Some d' -> LV d'.
+Proof. intros Hlv Hv s' w' b Hb. rewrite (gb_visit _ _ _ _ _ _ Hv) in Hb. eauto. Qed.
+
+Lemma gb_invalidate k bs addrs pid d s w :
+  get_block (map (invalidate_set k bs addrs pid) d) s w =
+  option_map (fun b => if inv_match bs addrs pid b && negb (k && b_locked b) then set_valid false b else b)
+             (get_block d s w).
+Proof.
+  unfold get_block. rewrite zth_map. destruct (zth d s) as [st|]; [|reflexivity]. cbn [option_map].
+  unfold invalidate_set. cbn [s_blocks]. apply zth_map.
+Qed.
+
+(** the operations of the (fixed) write-back cache and of the write-through family *)
+Definition wb_op (o : op) : bool :=
+  match o with
+  | OInstallKeepPid _ _ | OUnlock _ _ | OInvalidateAll _ _ | OEvictHit _ _ => false
+  | _ => true
+  end.
+Definition wt_op (o : op) : bool :=
+  match o with
+  | OInstall _ _ true | OInstallKeepPid _ _ | OFinishWrite _ _ | OFinishFill _ _
+  | OInvalidate _ _ | OMarkClean _ _ => false
+  | _ => true
+  end.
+
+Lemma lookup_found_valid d ns bs pid tag sid w b :
+  lookup d ns bs pid tag = Some (sid, w, true) -> get_block d sid w = Some b -> b_valid b = true.
+Proof.
+  intros Hl Hb. destruct (lookup_sound _ _ _ _ _ _ _ _ Hl) as [_ [s [Hs [b0 [Hb0 [V _]]]]]].
+  unfold get_block in Hb. rewrite Hs in Hb. congruence.
+Qed.
+
+Theorem step_preserves_lv ns ways bs d o :
+  wb_op o = true -> LV d -> LV (step ns ways bs d o).
+Proof.
+  intros Hop Hlv. destruct o as [pid tag ev|tag pid|pid tag|pid tag|sid w|sid w|sid w|sid w|pid tag|addrs pid|addrs pid|sid w|];
+    cbn [step]; try discriminate.
+  - destruct (lookup d ns bs pid tag) as [[[ls lw] [|]]|]; try exact Hlv.
+    destruct (find_victim d ns bs tag) as [[sid w]|]; try exact Hlv.
+    destruct (get_block d sid w) as [v|] eqn:Eg; try exact Hlv.
+    destruct (busy v || negb (tag mod bs =? 0)%N || (ev && negb (b_valid v && b_dirty v))) eqn:G; [exact Hlv|].
+    apply orb_false_iff in G. destruct G as [_ G3].
+    match goal with |- LV (match visit ?d1 _ _ with _ => _ end) => destruct (visit d1 sid w) as [d2|] eqn:Ev; [|exact Hlv];
+      apply (lv_visit d1 sid w d2); [|exact Ev] end.
+    apply lv_upd_block; [exact Hlv|]. intros b Hb _. assert (b = v) by congruence. subst b.
+    destruct ev; cbn; [|reflexivity]. cbn in G3. apply negb_false_iff in G3. apply andb_true_iff in G3. tauto.
+  - destruct (lookup d ns bs pid tag) as [[[sid w] [|]]|] eqn:El; try exact Hlv.
+    destruct (get_block d sid w) as [b|] eqn:Eg; try exact Hlv. destruct (busy b); [exact Hlv|].
+    match goal with |- LV (match visit ?d1 _ _ with _ => _ end) => destruct (visit d1 sid w) as [d2|] eqn:Ev; [|exact Hlv];
+      apply (lv_visit d1 sid w d2); [|exact Ev] end.
+    apply lv_upd_block; [exact Hlv|]. intros b0 Hb0 _. cbn. eapply lookup_found_valid; eauto.
+  - destruct (lookup d ns bs pid tag) as [[[sid w] [|]]|] eqn:El; try exact Hlv.
+    destruct (get_block d sid w) as [b|] eqn:Eg; try exact Hlv. destruct (b_locked b); [exact Hlv|].
+    match goal with |- LV (match visit ?d1 _ _ with _ => _ end) => destruct (visit d1 sid w) as [d2|] eqn:Ev; [|exact Hlv];
+      apply (lv_visit d1 sid w d2); [|exact Ev] end.
+    apply lv_upd_block; [exact Hlv|]. intros b0 Hb0 Hl. cbn in *. eauto.
+  - destruct (get_block d sid w) as [b|] eqn:Eg; try exact Hlv. destruct (0 <? b_rc b); [|exact Hlv].
+    apply lv_upd_block; [exact Hlv|]. intros b0 Hb0 Hl. cbn in *. eauto.
+  - destruct (get_block d sid w) as [b|] eqn:Eg; try exact Hlv. destruct (b_locked b); [|exact Hlv].
+    apply lv_upd_block; [exact Hlv|]. intros b0 _ Hl. cbn in Hl. discriminate.
+  - destruct (get_block d sid w) as [b|] eqn:Eg; try exact Hlv. destruct (b_locked b); [|exact Hlv].
+    apply lv_upd_block; [exact Hlv|]. intros b0 _ Hl. cbn in Hl. discriminate.
+  - intros s' w' b' Hb' Hl. rewrite gb_invalidate in Hb'.
+    destruct (get_block d s' w') as [b|] eqn:Eb; [|discriminate]. cbn [option_map] in Hb'. injection Hb' as Hb'. subst b'.
+    pose proof (Hlv _ _ _ Eb) as Hb0.
+    destruct (inv_match bs addrs pid b) eqn:Gi; destruct (b_locked b) eqn:Gl; cbn in Hl |- *;
+      try rewrite Gl in Hl; try discriminate Hl; auto.
+  - apply lv_upd_block; [exact Hlv|]. intros b0 Hb0 Hl. cbn in *. eauto.
+  - intros s' w' b Hb Hl. exfalso. unfold get_block, reset in Hb. rewrite zth_map in Hb.
+    destruct (zth (seq 0 (N.to_nat ns)) s') as [i|]; [|discriminate]. cbn [option_map] in Hb.
+    unfold fresh_set in Hb. cbn [s_blocks] in Hb. rewrite zth_map in Hb.
+    destruct (zth (seq 0 (N.to_nat ways)) w') as [j|]; [|discriminate]. cbn in Hb. injection Hb as <-. discriminate.
+Qed.
+
+(** every guarded operation preserves well-formedness; the validating bank-stage
+    completions of the write-back cache additionally need "locked blocks are valid" *)
 Theorem step_preserves_wf ns ways bs d o :
-  (0 < bs)%N -> o <> OInstallKeepPid (match o with OInstallKeepPid t _ => t | _ => 0%N end)
-                                     (match o with OInstallKeepPid _ p => p | _ => 0%N end) ->
+  (0 < bs)%N -> (forall t p, o <> OInstallKeepPid t p) ->
+  (match o with OFinishWrite _ _ | OFinishFill _ _ => LV d | _ => True end) ->
   WF ns ways bs d -> WF ns ways bs (step ns ways bs d o).
 Proof.
-  intros Hbs Hnot Hwf. destruct o as [pid tag ev|tag pid|pid tag|pid tag|sid w|sid w|sid w|pid tag|addrs pid|sid w|];
-    cbn [step]; try (exfalso; apply Hnot; reflexivity).
+  intros Hbs Hnot Hlv Hwf.
+  destruct o as [pid tag ev|tag pid|pid tag|pid tag|sid w|sid w|sid w|sid w|pid tag|addrs pid|addrs pid|sid w|];
+    cbn [step]; try (exfalso; eapply Hnot; reflexivity).
   - (* OInstall *)
     destruct (lookup d ns bs pid tag) as [[[ls lw] [|]]|] eqn:El; try exact Hwf.
     destruct (find_victim d ns bs tag) as [[sid w]|] eqn:Ev; try exact Hwf.
     destruct (get_block d sid w) as [v|] eqn:Eg; try exact Hwf.
-    destruct (busy v || negb (tag mod bs =? 0)%N) eqn:Eguard; [exact Hwf|].
+    destruct (busy v || negb (tag mod bs =? 0)%N || (ev && negb (b_valid v && b_dirty v))) eqn:Eguard; [exact Hwf|].
+    apply orb_false_iff in Eguard. destruct Eguard as [Eguard _].
     apply orb_false_iff in Eguard. destruct Eguard as [Hbusy Hal]. apply negb_false_iff in Hal.
     destruct (find_victim_spec _ _ _ _ _ _ Ev) as [Hsid [s [Hs _]]].
     destruct (lookup_sound _ _ _ _ _ _ _ _ El) as [Hsid' _].
@@ -407,20 +532,24 @@ Proof.
     apply wf_upd_block_flags; auto. intros b0 Hb0. assert (b0 = b) by congruence. subst b0. cbn. lia.
   - (* OFinishWrite *)
     destruct (get_block d sid w) as [b|] eqn:Eg; try exact Hwf.
-    destruct (b_locked b && b_valid b) eqn:Eguard; [|exact Hwf].
-    apply andb_true_iff in Eguard. destruct Eguard as [_ Vb].
+    destruct (b_locked b) eqn:Eguard; [|exact Hwf].
+    assert (Vb : b_valid b = true) by (eapply Hlv; eauto).
     unfold upd_block. unfold get_block in Eg. destruct (zth d sid) as [s|] eqn:Es; [|exact Hwf]. rewrite Eg.
     apply (wf_upd_set _ _ _ _ _ s); auto. destruct Hwf as [_ HS]. pose proof (HS _ _ Es) as Hset.
     destruct Hset as [_ [_ [HB _]]]. destruct (HB b (zth_in _ _ _ Eg)).
     apply (set_ok_replace_flags _ _ _ _ _ _ b); auto.
   - (* OFinishFill *)
     destruct (get_block d sid w) as [b|] eqn:Eg; try exact Hwf.
-    destruct (b_locked b && b_valid b) eqn:Eguard; [|exact Hwf].
-    apply andb_true_iff in Eguard. destruct Eguard as [_ Vb].
+    destruct (b_locked b) eqn:Eguard; [|exact Hwf].
+    assert (Vb : b_valid b = true) by (eapply Hlv; eauto).
     unfold upd_block. unfold get_block in Eg. destruct (zth d sid) as [s|] eqn:Es; [|exact Hwf]. rewrite Eg.
     apply (wf_upd_set _ _ _ _ _ s); auto. destruct Hwf as [_ HS]. pose proof (HS _ _ Es) as Hset.
     destruct Hset as [_ [_ [HB _]]]. destruct (HB b (zth_in _ _ _ Eg)).
     apply (set_ok_replace_flags _ _ _ _ _ _ b); auto.
+  - (* OUnlock *)
+    apply wf_upd_block_flags; auto. intros b0 Hb0. destruct Hwf as [_ HS].
+    unfold get_block in Hb0. destruct (zth d sid) as [s|] eqn:Es; [|discriminate].
+    destruct (HS _ _ Es) as [_ [_ [HB _]]]. destruct (HB b0 (zth_in _ _ _ Hb0)). cbn. lia.
   - (* OEvictHit *)
     destruct (lookup d ns bs pid tag) as [[[sid w] [|]]|] eqn:El; try exact Hwf.
     destruct (get_block d sid w) as [b|] eqn:Eg; try exact Hwf.
@@ -431,6 +560,10 @@ Proof.
       unfold get_block in Eg. destruct (zth d sid) as [s|] eqn:Es; [|discriminate].
       destruct (HS _ _ Es) as [_ [_ [HB _]]]. destruct (HB b (zth_in _ _ _ Eg)). cbn. lia.
   - (* OInvalidate *)
+    destruct Hwf as [HL HS]. split; [rewrite map_length; exact HL|]. intros sid s Hs.
+    rewrite zth_map in Hs. destruct (zth d sid) as [s0|] eqn:Es; [|discriminate]. injection Hs as <-.
+    apply invalidate_set_ok. auto.
+  - (* OInvalidateAll *)
     destruct Hwf as [HL HS]. split; [rewrite map_length; exact HL|]. intros sid s Hs.
     rewrite zth_map in Hs. destruct (zth d sid) as [s0|] eqn:Es; [|discriminate]. injection Hs as <-.
     apply invalidate_set_ok. auto.
